@@ -131,6 +131,7 @@ func (p *Path) addPC(c *sym.Term) {
 // feasible asks whether pc ∧ c has a model; unknown counts as inconclusive (ends the run as not exhaustive).
 func (p *Path) feasible(c *sym.Term) bool {
 	if p.model != nil && sym.Eval(c, p.model, p.evalMemo) == 1 {
+		p.lastModel = p.model
 		return true
 	}
 	p.sync()
